@@ -141,6 +141,14 @@ def run_binary(case):
     xa, xb = np.atleast_1d(np.array(xa, dtype=float)), np.atleast_1d(np.array(xb, dtype=float))
     stable = xa != -1
     nq = len(glat)
+    # the precipitation model queries the table with the smallest radius (largest Gibbs-Thomson energy, possibly unstable) first:
+    # the answer for a given g must not depend on the position / order of the entries of the array
+    xa_d, xb_d = ic.getInterfacialComposition(T, glat[::-1].copy())
+    xa_d, xb_d = np.atleast_1d(np.array(xa_d, dtype=float))[::-1], np.atleast_1d(np.array(xb_d, dtype=float))[::-1]
+    nq += len(glat)
+    if np.any((xa_d == -1) != (xa == -1)) or not np.allclose(xa_d[stable], xa[stable], rtol=1e-8, atol=0) \
+            or not np.allclose(xb_d[stable], xb[stable], rtol=1e-8, atol=0):
+        bad('depends-on-order-of-g-array', 'ascending g gives x_alpha %r, the same energies in descending order give %r' % (xa.tolist(), xa_d.tolist()))
     # (5) sentinel and monotonicity structure
     if not stable[0]:
         return {'viol': viol, 'states': 1, 'transitions': nq, 'outcome': '%s/no-solvus' % sysname, 'nontrivial': False,
